@@ -16,6 +16,7 @@ from harness.fatdev import Dev, mkfs, mount, image_at_prefix  # noqa: F401
 import fs.errors as fe
 from fs.memoryfs import MemoryFS
 from fs.base import FS
+from fs.mode import Mode
 from fs.info import Info  # noqa: F401
 from pyfatfs._exceptions import PyFATException
 
@@ -50,6 +51,15 @@ def make_image(cfg):
                             boot_garbage=cfg.get("garbage", False))
         img = b.build(cfg.get("tree", {}), label=cfg.get("label"))
         size = len(img)
+        if cfg.get("fill_free"):
+            # non-zero garbage in every free cluster
+            v = specfat.Volume(img, 0)
+            buf = bytearray(img)
+            for c in range(2, v.g.count + 2):
+                if v.entry(c) == 0:
+                    o = v.g.clus_off(c)
+                    buf[o:o + v.g.bpc] = bytes(((c * 31 + k) & 0xFF) | 1 for k in range(v.g.bpc))
+            img = bytes(buf)
     pre = bytes((0xA5 ^ (i & 0xFF)) for i in range(off))
     post = bytes((0x5A ^ (i & 0xFF)) for i in range(guard))
     return pre + img + post, off, size
@@ -68,6 +78,123 @@ class RefFS(MemoryFS):
         if self.isdir(path):
             raise fe.FileExpected(path)
         return super().create(path, wipe=wipe)
+
+    def openbin(self, path, mode="r", buffering=-1, **options):
+        # creation / truncation / exclusivity / error classes: exactly MemoryFS'
+        MemoryFS.openbin(self, path, mode, buffering, **options).close()
+        return RefFile(self, path, Mode(mode + "b" if "b" not in mode else mode))
+
+    def _raw_get(self, path):
+        with MemoryFS.openbin(self, path, "r") as f:
+            return f.read()
+
+    def _raw_put(self, path, data):
+        with MemoryFS.openbin(self, path, "w") as f:
+            f.write(bytes(data))
+
+
+class RefFile:
+    """Spec.ByteBuf: Python binary-file semantics over a byte buffer + open-mode gating.
+    (MemoryFS' own file object mispositions after an extending truncate(), does not gate
+    truncate() by mode and positions only once in append mode; real files do none of that.)"""
+
+    def __init__(self, fs_, path, mode):
+        self.fs, self.name, self.mode = fs_, path, mode
+        self.closed = False
+        self.pos = len(fs_._raw_get(path)) if mode.appending else 0
+
+    def _chk(self):
+        if self.closed:
+            raise ValueError("I/O operation on closed file")
+
+    def tell(self):
+        self._chk()
+        return self.pos
+
+    def seek(self, off, whence=0):
+        self._chk()
+        size = len(self.fs._raw_get(self.name))
+        if whence == 0:
+            if off < 0:
+                raise ValueError("negative seek value %d" % off)
+            self.pos = off
+        elif whence == 1:
+            self.pos = max(0, self.pos + off)
+        elif whence == 2:
+            self.pos = max(0, size + off)
+        else:
+            raise ValueError("invalid whence")
+        return self.pos
+
+    def read(self, n=-1):
+        self._chk()
+        if not self.mode.reading:
+            raise OSError("File not open for reading")
+        data = self.fs._raw_get(self.name)
+        if n is None or n < 0:
+            n = max(0, len(data) - self.pos)
+        chunk = data[self.pos:self.pos + n]
+        self.pos += len(chunk)
+        return bytes(chunk)
+
+    def readinto(self, buf):
+        b = self.read(len(buf))
+        buf[:len(b)] = b
+        return len(b)
+
+    def write(self, b):
+        self._chk()
+        if not self.mode.writing:
+            raise OSError("File not open for writing")
+        data = bytearray(self.fs._raw_get(self.name))
+        if self.mode.appending:
+            self.pos = len(data)
+        if self.pos > len(data):
+            data.extend(b"\0" * (self.pos - len(data)))
+        data[self.pos:self.pos + len(b)] = b
+        self.pos += len(b)
+        self.fs._raw_put(self.name, data)
+        return len(b)
+
+    def truncate(self, size=None):
+        self._chk()
+        if not self.mode.writing:
+            raise OSError("File not open for writing")
+        if size is None:
+            size = self.pos
+        if size < 0:
+            raise ValueError("negative size")
+        data = bytearray(self.fs._raw_get(self.name))
+        if size < len(data):
+            del data[size:]
+        else:
+            data.extend(b"\0" * (size - len(data)))
+        self.fs._raw_put(self.name, data)
+        return size
+
+    def close(self):
+        self.closed = True
+
+    def __enter__(self):
+        return self
+
+    def __exit__(self, *a):
+        self.close()
+
+    def flush(self):
+        pass
+
+    def readable(self):
+        return self.mode.reading
+
+    def writable(self):
+        return self.mode.writing
+
+    def seekable(self):
+        return True
+
+    def __iter__(self):
+        return iter(self.read().splitlines(True))
 
 
 class World:
